@@ -271,7 +271,10 @@ def run(ctx):
             core_evals += 1
             if len(acc) > 1:
                 accept_multi += 1
-            if got not in acc:
+            # compare on UTF-16 code units: two lone surrogates produced by adjacent truncations re-form a pair when concatenated, which
+            # Python would otherwise see as a different string than the same units decoded as one astral character
+            u = lambda x: None if x is None else x.encode("utf-16-le", "surrogatepass")
+            if u(got) not in {u(a) for a in acc}:
                 exp = sorted(acc)[0]
                 vals = [m["text"]] + [v for _, v in m["attrs"] if isinstance(v, str)]
                 if any(ZW in v for v in vals) or ZW in c["pattern"]:
